@@ -560,7 +560,7 @@ func runEcho(c *runner.Ctx, ec *echoCfg) *echoResult {
 		res.conservation = echoConservation(sess, cl)
 	}
 	for _, sc := range cl.AllConns() {
-		if !sc.IsControl {
+		if !sc.Control() {
 			res.dataConns = append(res.dataConns, sc)
 		}
 	}
@@ -631,7 +631,7 @@ func echoConservation(sess *gocql.Session, cl *fakenode.Cluster) []string {
 				var match *fakenode.ServerConn
 				n := 0
 				for _, sc := range cl.AllConns() {
-					if !sc.IsControl && !sc.Driver.Closed() && !sc.C.Closed() {
+					if !sc.Control() && !sc.Driver.Closed() && !sc.C.Closed() {
 						match = sc
 						n++
 					}
